@@ -22,6 +22,7 @@ REL = "miasm/core/asmblock.py"
 LEVEL_TEXT = ("Path rules over disasmEngine._dis_block (every loop exit accounted for), ordering rules for job_done, "
               "must-call rules for dis_multiblock/apply_splitting, partition shape of AsmBlock.split. Decides these "
               "necessary clauses for every byte buffer; decodes nothing.")
+LEVEL_TEXT += " Also: block merging removes the head's last instruction only under breakflow() and dstflow() of that instruction and appends all the son's lines."
 ASSUMPTIONS = ["CPython ast", "arch.dis() returns the single-instruction decoding at the offset"]
 
 
